@@ -343,7 +343,7 @@ def grid(ctx, batch, acc, reps):
                     for t, c in temps.items():
                         ctx.count('T_' + c)
                     if kind != 'raw' and rng.random() < 0.3:
-                        spec['via_update'] = rng.choice([True, 'range'])
+                        spec['via_update'] = rng.choice(L.WAYS)
                         ctx.count('built_via_update')
                     check_correlation(ctx, spec, sorted(temps.items()), batch, (kind, n, rkind, pact), acc)
         if ctx.time_left() < 120:
